@@ -36,7 +36,7 @@ KINDS = ("match", "await", "when")
 STMT = {"match": "SMatch", "await": "SAwait", "when": "SWhen"}
 
 PREAMBLE = """From Coq Require Import List Bool NArith Arith.
-From NG Require Import V2.Dnf V2.Groups V2.DnfRun.
+From NG Require Import V2.Dnf V2.Groups V2.GroupsFail V2.DnfRun.
 Import ListNotations.
 """
 
@@ -412,6 +412,333 @@ def _skeleton(state, kind):
     raise ValueError(f"unexpected statement shape {t}")
 
 
+
+# ---------------------------------------------------------------------------------------
+# failure side: `when` with several cases / await, member flows that are stopped
+
+
+def program_cases(kind, cases):
+    """`when` with one body per case (sending Done<i>), or `await <group>; send Done0()`;
+    helper flow f<i> finishes on E<i> and can be stopped by StopFlow(flow_id="f<i>")"""
+    ats = sorted({a for f in cases for a in atoms_of(f)})
+    pre = "".join(f"flow f{i}\n  match E{i}()\n\n" for i in ats)
+    if kind == "await":
+        return pre + f"flow main\n  await {expr_text(cases[0], kind)}\n  send Done0()\n"
+    body = ""
+    for i, f in enumerate(cases):
+        body += ("  when " if i == 0 else "  or when ") + expr_text(f, "when") + f"\n    send Done{i}()\n"
+    return pre + "flow main\n" + body
+
+
+def _parsed_cases(src, kind):
+    from nemoguardrails.colang import parse_colang_file
+    from nemoguardrails.colang.v2_x.lang.colang_ast import SpecOp, When
+
+    r = parse_colang_file(filename="", content=src, include_source_mapping=True, version="2.x")
+    for fl in r["flows"]:
+        if fl.name == "main":
+            for e in fl.elements:
+                if isinstance(e, SpecOp) and e.op in ("match", "await") and not (
+                        not isinstance(e.spec, dict) and getattr(e.spec, "name", None) == "StartFlow"):
+                    return [_spec_to_formula(e.spec, kind)]
+                if isinstance(e, When):
+                    return [_spec_to_formula(w, kind) for w in e.when_specs]
+    raise ValueError("no group statement found in main")
+
+
+def _fskeleton(state, kind):
+    """Read back BOTH sides of the expansion of main's group statement: like `slide`, follow forks
+    and gotos on the success path, and from every `match` element follow the failure path (the
+    innermost CatchPatternFailure label; Abort jumps to the enclosing one or ends the flow).
+    Returns {"cases": [[or_fork, [[atoms, wait_n]..], fail_wait]..], "else": else_wait}; raises
+    ValueError on any shape outside the protocol (fail closed)."""
+    from nemoguardrails.colang.v2_x.lang import colang_ast as A
+
+    cfg = state.flow_configs["main"]
+    els = cfg.elements
+    labels = cfg.element_labels
+    refs = {}
+    budget = [40000]
+
+    def tick():
+        budget[0] -= 1
+        if budget[0] < 0:
+            raise ValueError("walk budget exceeded")
+
+    def fwalk(pos, catch):
+        """failure path of a head that jumped to labels[catch[-1]] (position pos = label + 1)"""
+        trail = []
+        while True:
+            tick()
+            if pos >= len(els):
+                raise ValueError("failure path ran off the end")
+            el = els[pos]
+            if isinstance(el, A.CatchPatternFailure):
+                catch = catch + (el.label,) if el.label is not None else catch[:-1]
+                pos += 1
+            elif isinstance(el, (A.BeginScope, A.EndScope, A.Label, A.Assignment)):
+                pos += 1
+            elif isinstance(el, A.Goto):
+                if el.expression != "True" or el.label not in labels:
+                    raise ValueError("failure path: unexpected goto")
+                pos = labels[el.label] + 1
+            elif isinstance(el, A.WaitForHeads):
+                trail.append(("wait", el.number))
+                pos += 1
+            elif isinstance(el, A.MergeHeads):
+                trail.append(("merge", el.fork_uid))
+                pos += 1
+            elif isinstance(el, A.Abort):
+                if catch:
+                    if catch[-1] not in labels:
+                        raise ValueError("failure path: unknown catch label")
+                    pos = labels[catch[-1]] + 1
+                else:
+                    return trail + [("fail",)]
+            else:
+                raise ValueError(f"failure path: unexpected element {type(el).__name__}")
+
+    def walk(pos, catch):
+        trail = []
+        while True:
+            tick()
+            if pos >= len(els):
+                raise ValueError("ran off the end")
+            el = els[pos]
+            if isinstance(el, A.CatchPatternFailure):
+                catch = catch + (el.label,) if el.label is not None else catch[:-1]
+                pos += 1
+            elif isinstance(el, (A.BeginScope, A.EndScope, A.Label)):
+                pos += 1
+            elif isinstance(el, A.Assignment):
+                ex = el.expression
+                if ex.startswith("$") and ex.endswith(".flow") and ex[1:-5] in refs:
+                    refs[el.key] = refs[ex[1:-5]]
+                elif ex.startswith("$") and ex[1:] in refs:
+                    refs[el.key] = refs[ex[1:]]
+                pos += 1
+            elif isinstance(el, A.Goto):
+                if el.expression != "True" or el.label not in labels:
+                    raise ValueError("unexpected goto")
+                pos = labels[el.label] + 1
+            elif isinstance(el, A.ForkHead):
+                kids = []
+                for lb in el.labels:
+                    if lb not in labels:
+                        raise ValueError("fork to unknown label")
+                    kids.append(walk(labels[lb], catch))
+                return trail + [("fork", el.fork_uid, kids)]
+            elif isinstance(el, A.WaitForHeads):
+                trail.append(("wait", el.number))
+                pos += 1
+            elif isinstance(el, A.MergeHeads):
+                trail.append(("merge", el.fork_uid))
+                pos += 1
+            elif isinstance(el, A.SpecOp):
+                sp = el.spec
+                nm = getattr(sp, "name", None) or ""
+                if el.op == "send" and nm.startswith("Done") and (nm[4:].isdigit() or nm == "Done"):
+                    return trail + [("done", int(nm[4:] or 0))]
+                if el.op == "send" and nm == "StartFlow":
+                    pos += 1
+                elif el.op == "match" and nm == "FlowStarted" and "internal" in (el.info or {}):
+                    fid = sp.arguments.get("flow_id", "").strip("'\"")
+                    if sp.ref is not None:
+                        refs[sp.ref["elements"][0]["elements"][0].lstrip("$")] = fid
+                    pos += 1
+                elif el.op == "match" and isinstance(sp, A.Spec):
+                    if sp.spec_type == A.SpecType.REFERENCE:
+                        if not (sp.members and sp.members[0]["name"] == "Finished" and sp.var_name in refs):
+                            raise ValueError("unexpected reference match")
+                        nm = refs[sp.var_name]
+                    if not nm[1:].isdigit():
+                        raise ValueError(f"unexpected match {nm!r}")
+                    if catch:
+                        if catch[-1] not in labels:
+                            raise ValueError("unknown catch label")
+                        ft = fwalk(labels[catch[-1]] + 1, catch)
+                    else:
+                        ft = [("fail",)]
+                    return trail + [("match", int(nm[1:]), walk(pos + 1, catch), ft)]
+                else:
+                    raise ValueError(f"unexpected SpecOp {el.op} {nm}")
+            else:
+                raise ValueError(f"unexpected element {type(el).__name__}")
+
+    t = walk(1, ())
+
+    def leaf(tr):
+        if len(tr) == 1 and tr[0][0] == "match":
+            return tr[0][1], tr[0][2], tr[0][3]
+        return None
+
+    def waits_of(ft, must_start=()):
+        if not ft or ft[-1] != ("fail",):
+            raise ValueError(f"failure path does not end the flow: {ft}")
+        if list(ft[:len(must_start)]) != list(must_start):
+            raise ValueError(f"failure path {ft} does not start with {must_start}")
+        return tuple(x[1] for x in ft if x[0] == "wait")
+
+    def and_branch(tr, outer, done_idx, wsets):
+        lf = leaf(tr)
+        if lf is not None:
+            a, cont, ft = lf
+            if cont != [("merge", u) for u in outer] + [("done", done_idx)]:
+                raise ValueError(f"plain match continuation {cont}")
+            wsets.add(waits_of(ft))
+            return [[a], None]
+        if len(tr) == 1 and tr[0][0] == "fork":
+            _, uid, kids = tr[0]
+            atoms, ns = [], set()
+            for k in kids:
+                lf = leaf(k)
+                if lf is None:
+                    raise ValueError("and-fork child is not a match")
+                a, cont, ft = lf
+                if not (cont and cont[0][0] == "wait") or \
+                        cont[1:] != [("merge", uid)] + [("merge", u) for u in outer] + [("done", done_idx)]:
+                    raise ValueError(f"and-member continuation {cont}")
+                ns.add(cont[0][1])
+                wsets.add(waits_of(ft, [("merge", uid)]))
+                atoms.append(a)
+            if len(ns) > 1:
+                raise ValueError("members disagree on WaitForHeads number")
+            return [atoms, ns.pop() if ns else 0]
+        raise ValueError(f"unexpected alternative {tr}")
+
+    def one_wait(wsets, n):
+        if len(wsets) != 1:
+            raise ValueError(f"members disagree on the failure handlers: {sorted(wsets)}")
+        w = next(iter(wsets))
+        if len(w) != n:
+            raise ValueError(f"expected {n} WaitForHeads on the failure path, found {w}")
+        return w
+
+    if kind == "when":
+        if not (len(t) == 1 and t[0][0] == "fork"):
+            raise ValueError("when: expected a cases fork")
+        cuid = t[0][1]
+        cases, elses = [], set()
+        for ci, g in enumerate(t[0][2]):
+            if not (len(g) == 1 and g[0][0] == "fork"):
+                raise ValueError("when: expected a groups fork")
+            wsets = set()
+            alts = [and_branch(k, [cuid], ci, wsets) for k in g[0][2]]
+            w = one_wait(wsets, 2)
+            cases.append([True, alts, w[0]])
+            elses.add(w[1])
+        if len(elses) != 1:
+            raise ValueError("cases disagree on the else WaitForHeads number")
+        return {"cases": cases, "else": elses.pop()}
+    wsets = set()
+    try:
+        alt = and_branch(t, [], 0, wsets)
+        one_wait(wsets, 0)
+        return {"cases": [[False, [alt], None]], "else": None}
+    except ValueError:
+        pass
+    if len(t) == 1 and t[0][0] == "fork":
+        uid = t[0][1]
+        wsets = set()
+        alts = [and_branch(k, [uid], 0, wsets) for k in t[0][2]]
+        w = one_wait(wsets, 1)
+        return {"cases": [[True, alts, w[0]]], "else": None}
+    raise ValueError(f"unexpected statement shape {t}")
+
+
+def _worker_fail(job, v2util):
+    """job with member flows that fail: events are [i, true] (E<i>) or [i, false] (StopFlow f<i>)"""
+    kind = job["kind"]
+    cases = [from_json(c) for c in job["cases"]]
+    src = program_cases(kind, cases)
+    res = {"id": job["id"], "parse": None, "fskel": None, "runs": []}
+    try:
+        pc = _parsed_cases(src, kind)
+        res["parse"] = "ok" if pc == cases else "differs:" + json.dumps([to_json(c) for c in pc])
+    except BaseException as e:  # noqa: BLE001
+        if isinstance(e, KeyboardInterrupt):
+            raise
+        res["parse"] = f"error:{type(e).__name__}: {e}"
+    try:
+        st0 = v2util.init_state(src)
+        try:
+            res["fskel"] = {"ok": _fskeleton(st0, kind)}
+        except ValueError as e:
+            res["fskel"] = {"odd": str(e)[:300]}
+    except BaseException as e:  # noqa: BLE001
+        if isinstance(e, KeyboardInterrupt):
+            raise
+        res["fskel"] = {"exc": f"{type(e).__name__}: {str(e)[:200]}"}
+    for si, evs in enumerate(job["seqs"]):
+        random.seed(job.get("seed", 0) * 7919 + si)
+        dones, failed, exc = [], None, None
+        try:
+            st = v2util.start_main(v2util.init_state(src))
+            for i, (a, fin) in enumerate(evs):
+                ev = {"type": f"E{a}"} if fin else {"type": "StopFlow", "flow_id": f"f{a}"}
+                st = v2util.step(st, ev)
+                for t in v2util.out_types(st):
+                    if t and t.startswith("Done"):
+                        dones.append([i + 1, int(t[4:])])
+                if failed is None and st.main_flow_state.status.name in ("STOPPING", "STOPPED"):
+                    failed = i + 1
+        except BaseException as e:  # noqa: BLE001
+            if isinstance(e, KeyboardInterrupt):
+                raise
+            exc = f"{type(e).__name__}: {str(e)[:160]}"
+        res["runs"].append({"d": dones, "f": failed, "x": exc})
+    return res
+
+
+def fail_expected(cases, evs):
+    """direct oracle: ('done', n, set of cases) | ('fail', n) | ('never',) - the formula over the
+    members that FINISHED (a stopped member never finishes); failed when no case can hold any more"""
+    status = {}
+    for i, (a, fin) in enumerate(evs):
+        status.setdefault(a, bool(fin))
+        finished = {x for x, v in status.items() if v}
+        w = [ci for ci, f in enumerate(cases) if py_eval(f, finished)]
+        if w:
+            return ("done", i + 1, w)
+        alive = {x for f in cases for x in atoms_of(f)} - {x for x, v in status.items() if not v}
+        if not any(py_eval(f, alive) for f in cases):
+            return ("fail", i + 1)
+    return ("never",)
+
+
+def fail_histories(atoms, limit=None, rng=None, extra=True):
+    """every assignment finish/stop to the atoms x every order; with `extra`, additionally the
+    same history with one opposite event for some atom inserted after its first event"""
+    hs = []
+    for outs in itertools.product((True, False), repeat=len(atoms)):
+        for perm in itertools.permutations(range(len(atoms))):
+            hs.append([[atoms[j], outs[j]] for j in perm])
+    if limit is not None and len(hs) > limit:
+        hs = rng.sample(hs, limit)
+    if extra and rng is not None:
+        more = []
+        for h in hs[:: 3]:
+            j = rng.randrange(len(h))
+            h2 = list(h)
+            h2.insert(rng.randint(j + 1, len(h)), [h[j][0], not h[j][1]])
+            more.append(h2)
+        hs = hs + more
+    return hs
+
+
+def coq_fevents(evs):
+    return C.coq_list([f"({a}%N, {C.coq_bool(fin)})" for a, fin in evs])
+
+
+def coq_fskel(sk):
+    cs = []
+    for fork, alts, fw in sk["cases"]:
+        t_alts = C.coq_list(["(%s, %s)" % (C.coq_list([f"{a}%N" for a in ats]), "(@None nat)" if n is None else f"(Some {n})")
+                             for ats, n in alts])
+        cs.append("(%s, %s, %s)" % (C.coq_bool(fork), t_alts, "(@None nat)" if fw is None else f"(Some {fw})"))
+    return "(%s, %s)" % (C.coq_list(cs), "(@None nat)" if sk["else"] is None else f"(Some {sk['else']})")
+
+
 def _worker(path):
     import logging
 
@@ -421,6 +748,10 @@ def _worker(path):
     jobs = json.load(open(path))
     out = sys.stdout
     for job in jobs:
+        if job.get("mode") == "fail":
+            out.write(json.dumps(_worker_fail(job, v2util)) + "\n")
+            out.flush()
+            continue
         kind, f = job["kind"], from_json(job["formula"])
         src = program(kind, f)
         res = {"id": job["id"], "parse": None, "skel": None, "runs": []}
@@ -438,6 +769,10 @@ def _worker(path):
                 res["skel"] = {"ok": [sk[0], [[a, n] for a, n in sk[1]]]}
             except ValueError as e:
                 res["skel"] = {"odd": str(e)[:300]}
+            try:
+                res["fskel"] = {"ok": _fskeleton(st0, kind)}
+            except ValueError as e:
+                res["fskel"] = {"odd": str(e)[:300]}
         except BaseException as e:  # noqa: BLE001
             if isinstance(e, KeyboardInterrupt):
                 raise
@@ -463,6 +798,8 @@ def _worker(path):
 
 
 def _weight(job):
+    if job.get("mode") == "fail":
+        return len(job["seqs"]) * 5 + 5
     return len(job["seqs"]) * (1 if job["kind"] == "match" else 3 if job["kind"] == "await" else 5) + 5
 
 
@@ -746,9 +1083,54 @@ def run(tier, seed, replay=None):
                     seqs = orders(range(k), rng.randrange(k), limit=120, rng=rng)
                 add_job(kind, f, seqs, f"sampled-{k}")
 
+    # ---- member flows that FAIL (StopFlow) interleaved with finishing ones; `when` with several cases
+    fjobs = []
+
+    def add_fjob(kind, cases, seqs, origin):
+        fjobs.append({"id": 100000 + len(fjobs), "mode": "fail", "kind": kind, "cases": [to_json(c) for c in cases],
+                      "seqs": seqs, "seed": seed, "origin": origin})
+
+    if rep is not None:
+        if rep.get("kind") == "e2e-fail":
+            add_fjob(rep["stmt"], [from_json(c) for c in rep["cases"]], [rep["events"]], "replay")
+    else:
+        for c in corpus:
+            if c.get("kind") == "e2e-fail":
+                add_fjob(c["stmt"], [from_json(x) for x in c["cases"]], [c["events"]], "corpus")
+        cap = None if thorough else 96
+        # one group, await and when
+        for k in (2, 3, 4):
+            fs_k = all_formulas(k)
+            if k == 4 and not thorough:
+                fs_k = rng.sample(fs_k, 20)
+            for f in fs_k:
+                for kind in ("await", "when"):
+                    add_fjob(kind, [f], fail_histories(list(range(k)), cap, rng), f"fail-one-group-{k}")
+        # `when` with 2 and 3 cases over disjoint flows: every shape with <= 4 flows in total
+        def shifted(f, off):
+            return relabel(f, [a + off for a in range(8)])
+
+        for sizes in ((1, 1), (1, 2), (2, 1), (2, 2), (1, 3), (3, 1), (1, 1, 1), (2, 1, 1), (1, 2, 1), (1, 1, 2)):
+            opts, off = [], 0
+            for kk in sizes:
+                opts.append([shifted(f, off) for f in all_formulas(kk)])
+                off += kk
+            for cases in itertools.product(*opts):
+                add_fjob("when", list(cases), fail_histories(list(range(off)), cap, rng), "fail-when-%s" % "-".join(map(str, sizes)))
+        # cases that share flows
+        shared_cases = [
+            [("or", [0, 1]), ("and", [1, 2])], [("and", [0, 1]), ("or", [1, 2])], [("or", [0, 1]), 1],
+            [("or", [("and", [0, 1]), 2]), ("and", [2, 3])], [0, ("or", [0, 1])], [("and", [("or", [0, 1]), 2]), ("or", [2, 3])],
+            [("or", [0, 1, 2]), 3], [("or", [0, 1]), ("or", [1, 2]), 3],
+        ]
+        for cases in shared_cases:
+            ats = sorted({a for f in cases for a in atoms_of(f)})
+            add_fjob("when", cases, fail_histories(ats, cap, rng), "fail-when-shared-flows")
+
     t_x2 = time.time()
-    results = run_children(jobs, "jobs") if jobs else {}
+    results = run_children(jobs + fjobs, "jobs") if (jobs or fjobs) else {}
     t_x2 = time.time() - t_x2
+    terms3f, kept3f = [], []
 
     terms2, kept2 = [], []
     terms3, kept3 = [], []
@@ -782,13 +1164,19 @@ def run(tier, seed, replay=None):
         sk = r["skel"]
         if "ok" in sk:
             orf, alts = sk["ok"]
-            t_alts = C.coq_list(["(%s, %s)" % (C.coq_list([f"{a}%N" for a in ats]), "None" if n is None else f"(Some {n})")
+            t_alts = C.coq_list(["(%s, %s)" % (C.coq_list([f"{a}%N" for a in ats]), "(@None nat)" if n is None else f"(Some {n})")
                                  for ats, n in alts])
             terms3.append(f"({STMT[kind]}, {coq_formula(f)}, ({C.coq_bool(orf)}, {t_alts}))")
             kept3.append((kind, f, sk["ok"]))
         else:
             terms3.append(f"({STMT[kind]}, {coq_formula(f)}, (false, @nil (list N * option nat)))")
             kept3.append((kind, f, sk))
+        fsk = r.get("fskel") or {"odd": "missing"}
+        if "ok" in fsk:
+            terms3f.append(f"({STMT[kind]}, [{coq_formula(f)}], {coq_fskel(fsk['ok'])})")
+        else:
+            terms3f.append(f"({STMT[kind]}, [{coq_formula(f)}], (@nil (bool * list (list N * option nat) * option nat), @None nat))")
+        kept3f.append((kind, [f], fsk))
         # X2
         obs = []
         for evs, rr in zip(job["seqs"], r["runs"]):
@@ -813,6 +1201,110 @@ def run(tier, seed, replay=None):
         terms2.append("(%s, %s, %s)" % (STMT[kind], coq_formula(f),
                                         C.coq_list([f"({coq_events(e)}, {coq_outcome(o)})" for e, o in obs])))
         kept2.append((kind, f, obs))
+
+    # ---- failing members: results
+    terms2f, kept2f = [], []
+    n_fruns = 0
+    f_hist = {"done": 0, "fail": 0, "never": 0}
+    for job in fjobs:
+        kind = job["kind"]
+        cases = [from_json(c) for c in job["cases"]]
+        text = program_cases(kind, cases).split("flow main\n")[1].replace("\n", " / ")
+        origins[job["origin"]] = origins.get(job["origin"], 0) + len(job["seqs"])
+        r = results.get(job["id"])
+        if r is None:
+            n_missing += 1
+            if n_missing > 3:
+                out.add_broken("harness:C07-children-incomplete", f"no result for `{text}`")
+                continue
+            out.findings.append(C.Finding(f"{kind}-group-hangs-or-crashes-interpreter",
+                                          f"`{text}` with stopped member flows did not return under the time limit",
+                                          {"kind": "e2e-fail", "stmt": kind, "cases": job["cases"], "events": job["seqs"][0]}))
+            continue
+        if r["parse"] != "ok":
+            out.add_broken("harness:C07-program-text", f"cases {job['cases']} parsed as {r['parse']}")
+            continue
+        fsk = r.get("fskel") or {"odd": "missing"}
+        t_fs = C.coq_list([coq_formula(c) for c in cases])
+        if "ok" in fsk:
+            terms3f.append(f"({STMT[kind]}, {t_fs}, {coq_fskel(fsk['ok'])})")
+        else:
+            terms3f.append(f"({STMT[kind]}, {t_fs}, (@nil (bool * list (list N * option nat) * option nat), @None nat))")
+        kept3f.append((kind, cases, fsk))
+        obs = []
+        for evs, rr in zip(job["seqs"], r["runs"]):
+            n_fruns += 1
+            if any(len(ops_of(c)) >= 1 for c in cases) and any(not fin for _, fin in evs):
+                n_nontrivial += 1
+            want = fail_expected(cases, evs)
+            f_hist[want[0]] += 1
+            d, fl_step, x = rr["d"], rr["f"], rr["x"]
+            if want[0] == "done":
+                ok = x is None and fl_step is None and len(d) == 1 and d[0][0] == want[1] and d[0][1] in want[2]
+            elif want[0] == "fail":
+                ok = x is None and d == [] and fl_step == want[1]
+            else:
+                ok = x is None and d == [] and fl_step is None
+            if not ok:
+                oracle_bad += 1
+                if len(out.findings) < 60:
+                    if x is not None:
+                        sig = f"{kind}-cases-raises-{x.split(':')[0]}-with-failed-members"
+                    elif want[0] == "done" and not d:
+                        sig = f"{kind}-case-does-not-fire-after-other-members-failed"
+                    elif want[0] == "done":
+                        sig = f"{kind}-case-fires-at-wrong-step-or-wrong-case-with-failed-members"
+                    elif d:
+                        sig = f"{kind}-case-fires-although-formula-does-not-hold-with-failed-members"
+                    else:
+                        sig = f"{kind}-statement-failure-at-wrong-step"
+                    out.findings.append(C.Finding(
+                        sig,
+                        f"`{text}` with events {[('E%d' % a) if fin else ('Stop f%d' % a) for a, fin in evs]}: "
+                        f"Done (step, case) = {d}, flow aborted at step {fl_step}" + (f", {x}" if x else "")
+                        + f"; required: {want}",
+                        {"kind": "e2e-fail", "stmt": kind, "cases": job["cases"], "events": evs, "observed_done": d,
+                         "observed_abort_step": fl_step, "exception": x, "required": list(want),
+                         "program": program_cases(kind, cases)}))
+            if x is None and len(d) <= 1 and not (d and fl_step is not None):
+                o = f"(ObsDone {d[0][0]} {d[0][1]})" if d else (f"(ObsFail {fl_step})" if fl_step is not None else "ObsNever")
+                obs.append((evs, o))
+        terms2f.append("(%s, %s, %s)" % (STMT[kind], t_fs, C.coq_list([f"({coq_fevents(e)}, {o})" for e, o in obs])))
+        kept2f.append((kind, cases, obs))
+
+    if okm and terms3f:
+        bools, err = C.run_cases(PID + "_fcompile", PREAMBLE, terms3f, "check_fcompile", shard=150)
+        if err:
+            out.add_broken("correspondence:C07-fail-compile(coqc)", err)
+        else:
+            bad = [c for ok, c in zip(bools, kept3f) if not ok]
+            if bad:
+                kind, cases, sk = min(bad, key=lambda c: len(json.dumps([to_json(x) for x in c[1]])))
+                t_fs = C.coq_list([coq_formula(c) for c in cases])
+                model = C.eval_term(PID + "_fcompile", PREAMBLE, f"option_map fskel_of (fcompile {STMT[kind]} {t_fs})")
+                out.add_broken("correspondence:C07-fail-compile",
+                               f"{len(bad)} expansions differ from the model on the failure handlers; smallest: `{kind}` cases "
+                               f"{[expr_text(c, kind) for c in cases]} real expansion reads as {sk}; model: {model}")
+    if okm and terms2f:
+        bools, err = C.run_cases(PID + "_frun", PREAMBLE, terms2f, "check_frun", shard=12)
+        if err:
+            out.add_broken("correspondence:C07-fail-run(coqc)", err)
+        else:
+            bad = [c for ok, c in zip(bools, kept2f) if not ok]
+            if bad:
+                kind, cases, obs = min(bad, key=lambda c: len(json.dumps([to_json(x) for x in c[1]])))
+                t_fs = C.coq_list([coq_formula(c) for c in cases])
+                t1 = [f"({STMT[kind]}, {t_fs}, {coq_fevents(e)}, {o})" for e, o in obs]
+                b1, err1 = C.run_cases(PID + "_frun1", PREAMBLE, t1, "check_frun1", shard=400)
+                detail = ""
+                if not err1:
+                    for ok, (e, o) in zip(b1, obs):
+                        if not ok:
+                            model = C.eval_term(PID + "_frun1", PREAMBLE, f"frun_c {STMT[kind]} {t_fs} {coq_fevents(e)}")
+                            detail = f"events={e} interpreter={o} model={model}"
+                            break
+                out.add_broken("correspondence:C07-fail-run",
+                               f"{len(bad)} statements disagree; smallest: `{kind}` cases {[expr_text(c, kind) for c in cases]} {detail}")
 
     if okm and terms3:
         bools, err = C.run_cases(PID + "_compile", PREAMBLE, terms3, "check_compile", shard=100)
@@ -846,11 +1338,12 @@ def run(tier, seed, replay=None):
                                f"{len(bad)} (statement, group) pairs disagree; smallest: `{kind} {expr_text(f, kind)}` {detail}")
 
     out.coverage.update({
-        "evaluations": len(terms1) + len(terms3) + n_runs,
+        "evaluations": len(terms1) + len(terms3) + len(terms3f) + n_runs + n_fruns,
         "distinct_nontrivial": x1_nontrivial + n_nontrivial,
         "rule": "X1 (normalize): distinct group trees (hash of the tree) containing both `and` and `or` with depth>=2; "
                 "X2 (interpreter runs): distinct (statement kind, group, event order) triples - distinct by construction - whose group "
-                "contains both operators and >=3 distinct atoms; every order contains an irrelevant and a repeated event",
+                "contains both operators and >=3 distinct atoms; every order contains an irrelevant and a repeated event; failing-member runs: distinct "
+                "(statement, cases, history) triples with at least one and/or group and at least one stopped member",
         "samples": [{"x1_group": to_json(f), "impl": to_json(r[1]) if r[0] == "ok" else r[1]} for f, r in kept1[:2]]
                    + [{"stmt": k, "group": to_json(f), "events": o[0][0], "done_step": o[0][1]} for k, f, o in kept2[len(kept2) // 2: len(kept2) // 2 + 3] if o],
         "input_distribution": {
@@ -859,18 +1352,20 @@ def run(tier, seed, replay=None):
             "x2_jobs": len(jobs), "x2_runs": n_runs, "x2_runs_by_origin": origins,
             "x2_kinds": {k: sum(len(j["seqs"]) for j in jobs if j["kind"] == k) for k in KINDS},
             "x3_expansions_compared": len(terms3),
+            "x3_failure_handlers_compared": len(terms3f),
+            "x2_fail_jobs": len(fjobs), "x2_fail_runs": n_fruns, "x2_fail_required_outcomes": f_hist,
             "corpus_cases": len(corpus),
             "x2_wall_s": round(t_x2, 1),
         },
-        "traces_validated_against_impl": n_runs + len(terms1) + len(terms3),
+        "traces_validated_against_impl": n_runs + n_fruns + len(terms1) + len(terms3) + len(terms3f),
         "correspondence_disagreements": len(x1_bad),
         "oracle_violations": oracle_bad,
     })
     out.assumptions += [
         "atoms are parameterless events E<i> / flows f<i> that finish on E<i>; an event matches an atom iff the names are equal (the theorems hold for any matching relation)",
-        "await/when: every started member instance finishes exactly in the step of its flow's event; member flows never fail (failure labels are outside the model)",
+        "await/when: every started member instance finishes exactly in the step of its flow's event; all instances of a flow finish / fail in the same step",
         "the protocol model (Groups.v) is tied to the interpreter by the end-to-end runs (X2) and to the expansion by the read-back of the expanded elements (X3), not by a refinement proof of statemachine.slide",
-        "a `when` statement with one case; `else` branches and several cases are outside C07's statement",
+        "failing members: a member flow fails through StopFlow(flow_id); an event either finishes or stops flows, never both in one step; `when` without an else branch (all cases failed = the flow is aborted)",
     ]
     out.notes.append(f"wall: build {b.get('build_s')}s, interpreter children {round(t_x2, 1)}s, total {round(time.time() - t_start, 1)}s")
     if thorough and b["ok"]:
